@@ -896,8 +896,17 @@ def run_impl(case):
         except Exception as e:  # noqa: BLE001
             return f"ERR:{type(e).__name__}"
 
+    def live(side):
+        try:
+            return getattr(wf, ATTR[side])
+        except Exception:  # noqa: BLE001  (a getter that raises is reported by getmap)
+            return None
+
     def getmap(side):
-        m = wf.inputs_map if side == "in" else wf.outputs_map
+        try:
+            m = wf.inputs_map if side == "in" else wf.outputs_map
+        except Exception as e:  # noqa: BLE001
+            return [("!getter", f"?{type(e).__name__}")]
         if m is None:
             return None
         out = []
@@ -994,7 +1003,7 @@ def run_impl(case):
                 side, m, form = op[1], op[2], op[3]
                 if m is not None:
                     m = bidict(m) if _eff_form(m, form) == "bidict" else dict(m)
-                foreign[side]["stale"] = getattr(wf, ATTR[side])
+                foreign[side]["stale"] = live(side)
                 foreign[side]["orig"] = m
                 if form in ("shared", "sharedb") and m is not None:
                     # the very same object is given to a second workflow first
@@ -1009,7 +1018,7 @@ def run_impl(case):
             elif what == "mapboth":
                 m = bidict(op[1]) if _eff_form(op[1], op[2]) == "bidict" else dict(op[1])
                 for side in ("in", "out"):
-                    foreign[side]["stale"] = getattr(wf, ATTR[side])
+                    foreign[side]["stale"] = live(side)
                     foreign[side]["orig"] = m
                 wf.inputs_map = m
                 wf.outputs_map = m
@@ -1050,7 +1059,7 @@ def run_impl(case):
                 else:
                     new = pickle.loads(pickle.dumps(wf))
                     for side in ("in", "out"):
-                        foreign[side]["stale"] = getattr(wf, ATTR[side])
+                        foreign[side]["stale"] = live(side)
                     for t, n in list(node.items()):
                         if n.parent is wf:
                             nn = new.children[n.label]
@@ -1274,7 +1283,7 @@ def _view(pairs):
     """the observed map as the user reads it: name, or None for the disabled marker / a raw None"""
     if pairs is None:
         return None
-    return {k: (None if v.startswith("-") or v == "!None" else v) for k, v in pairs}
+    return {k: (None if v.startswith(("-", "?(None,")) or v == "!None" else v) for k, v in pairs}
 
 
 def oracle(case, r):
